@@ -62,3 +62,30 @@ pub open spec fn henc_bits(e: HuffmanOriginalEncoding) -> Seq<bool> {
 pub open spec fn henc_ll(e: HuffmanOriginalEncoding) -> Seq<u8> { rle_expand(e.lengths@).subrange(0, e.num_literals as int) }
 pub open spec fn henc_dl(e: HuffmanOriginalEncoding) -> Seq<u8> { rle_expand(e.lengths@).subrange(e.num_literals as int, rle_expand(e.lengths@).len() as int) }
 pub open spec fn henc_codes(e: HuffmanOriginalEncoding) -> Codes { Codes { ll: henc_ll(e), dl: henc_dl(e) } }
+
+/// the order table is a permutation of 0..19 (the RFC's order: checked against the RFC by Kani U10.tables)
+pub proof fn lemma_order_table()
+    ensures forall|i: int| 0 <= i < 19 ==> 0 <= #[trigger] TREE_CODE_ORDER_TABLE[i] < 19,
+        forall|i: int, j: int| 0 <= i < j < 19 ==> TREE_CODE_ORDER_TABLE[i] != TREE_CODE_ORDER_TABLE[j],
+{
+    assert(TREE_CODE_ORDER_TABLE@ =~= seq![16usize, 17, 18, 0, 8, 7, 9, 6, 10, 5, 11, 4, 12, 3, 13, 2, 14, 1, 15]);
+}
+/// writing entry ORDER[n] does not disturb the bits of the entries written before
+pub proof fn lemma_cl_bits_frame(a: Seq<u8>, b: Seq<u8>, n: nat)
+    requires n < 19, a.len() == 19, b.len() == 19,
+        forall|j: int| 0 <= j < 19 && j != TREE_CODE_ORDER_TABLE[n as int] ==> a[j] == b[j],
+    ensures cl_bits(a, n) == cl_bits(b, n),
+{
+    lemma_order_table();
+    lemma_cl_bits_same(a, b, n, n);
+}
+pub proof fn lemma_cl_bits_same(a: Seq<u8>, b: Seq<u8>, n: nat, m: nat)
+    requires m <= n < 19, a.len() == 19, b.len() == 19,
+        forall|j: int| 0 <= j < 19 && j != TREE_CODE_ORDER_TABLE[n as int] ==> a[j] == b[j],
+    ensures cl_bits(a, m) == cl_bits(b, m),
+    decreases m
+{
+    lemma_order_table();
+    if m > 0 { lemma_cl_bits_same(a, b, n, (m - 1) as nat); }
+}
+
